@@ -30,6 +30,7 @@ import Driver.OpsCmd
 import Driver.OpsCmd2
 import Driver.OpsCompose
 import Driver.OpsCheck
+import Driver.OpsSelfplay
 namespace Driver
 
 def handlers : List Handler := [
@@ -64,6 +65,7 @@ def handlers : List Handler := [
   handleCmd2,
   handleCompose,
   handleCheck,
+  handleSelfplay,
 ]
 
 def step (st : St) (line : String) : St × String :=
